@@ -335,6 +335,7 @@ class EnvReset(Contract):
         return [S.a["self"]]          # which fields: see the frame obligations
 
     qualname = "nasim.envs.environment.NASimEnv.reset"
+    callable_by_contract = False      # inlined by NASimEnv.__init__
     tags = {"C04": ("C04",), "C06": ("C06",), "C10": ("C10",), "C03": ("C03",), "raises": ("C04", "C10"),
             "frame": ("C04", "C19")}
 
